@@ -35,7 +35,7 @@ CHECKS = {
          "DESIGN.md §4 C04"),
  "C05": ("enum", "model_checking",
          "bounded-exhaustive UNTYPED term enumeration and all registration orders of extra overloads, accept / reject and inferred type compared with an independent reference checker",
-         "All terms of depth <= 1 over 12 atoms × 30 constructors, all depth-2 terms with one nested operand, all single-position type-breaking replacements of the well-typed small-alphabet programs, a variable of each of 16 types in 23 contexts, all pairs of five function-typed variables under 8 contexts, and eight overload families (each written with separate and with shared type-variable objects) registered in every order (k! for k <= 4) and every subset: the reference checker (syntax-directed, one-way matching, written from the README rules) must agree with types.Infer on accept / reject and on the inferred type, Expr.Compile must agree on two back ends, and no accepted program may raise a type error at run time.",
+         "All terms of depth <= 1 over 12 atoms × 30 constructors, all depth-2 terms with one nested operand, all single-position type-breaking replacements of the well-typed small-alphabet programs, a variable of each of 16 types in 23 contexts, all pairs of five function-typed variables under 8 contexts, every reserved word bound in the environment and used as a variable, and nine overload families (each written with separate and with shared type-variable objects) registered in every order (k! for k <= 4) and every subset, and also registered AFTER the engine's first compilation with the program compiled before and after against one shared *types.Env: the reference checker (syntax-directed, one-way matching, written from the README rules) must agree with types.Infer on accept / reject and on the inferred type, Expr.Compile must agree on two back ends, and no accepted program may raise a type error at run time.",
          "Trusted: mc/ref/check.go. The ⊥ rules and 'first instantiating poly overload wins' are mirrored as documented in DESIGN.md §7.",
          "DESIGN.md §4 C05"),
  "C06": ("enum", "model_checking",
@@ -46,18 +46,18 @@ CHECKS = {
 
  "C08": ("enum", "model_checking",
          "bounded-exhaustive enumeration of operator tables × token sequences, parsed by the real lexer+parser and by an independent shunting-yard reference parser; trees and node spans compared",
-         "For 81 (thorough 729) operator tables over two infix symbols × {left, right, non-associative} × binding powers {3, 3.5, 4}, one prefix and one postfix symbol, plus the built-in table, an identifier-like-operator table and a literal-forms table, every token sequence up to the length bound (5 tokens over the 13-symbol alphabet incl. ( ) ? : . [ ] , ; 7 / 9 tokens over the operator-only and ternary alphabets) is parsed by the real code and by the reference (hand-written scanner + two-stack operator-precedence parser): accept / reject, the tree and every node's span (rune range, line, column; one family is newline-separated) must agree. Non-associative self-chains must be rejected in every context.",
+         "For 81 (thorough 729) operator tables over two infix symbols × {left, right, non-associative} × binding powers {3, 3.5, 4}, one prefix and one postfix symbol, plus the built-in table (also over a parenthesis / comparison alphabet and a conditional-inside-literal alphabet {a ? : [ ] , +}, 7 tokens), three declaration orders of a table whose symbols are prefixes of one another, 45 tables with powers around the grammar's own call / member powers, an identifier-like-operator table and a literal-forms table, every token sequence up to the length bound (5 tokens over the 13-symbol alphabet incl. ( ) ? : . [ ] , ; 7 / 9 tokens over the operator-only and ternary alphabets) is parsed by the real code and by the reference (hand-written scanner + two-stack operator-precedence parser): accept / reject, the tree and every node's span (rune range, line, column; one family is newline-separated) must agree. Non-associative self-chains must be rejected in every context.",
          "Trusted: mc/ref/lex.go + mc/ref/parse.go (a different parsing algorithm driven only by the declarations). Bound: <= 2 infix symbols per table, one role per symbol except the built-in table.",
          "DESIGN.md §4 C08"),
  "C09": ("enum", "model_checking",
          "bounded-exhaustive enumeration of input strings × operator sets through the real lexer, checked against model-free span invariants and a hand-written reference scanner",
-         "All strings of <= 4 (thorough 5) atoms over a 35-atom mixed alphabet (keywords, ASCII / non-ASCII letters, digits and radix prefixes, exponent letters, dot, operator characters, quotes, backslash, white space incl. newline) under six operator sets (built-in, prefix-overlapping symbolic, containing . and ?, identifier-like with common prefixes, non-ASCII identifier-like, empty): tokens must be in source order, non-overlapping, separated only by white space, with runes[Idx:IdxEnd] == Lexeme and Line / Col recomputed from the text, and the token sequence must equal the reference scanner's (longest registered symbolic operator, whole-word identifier-like operators and true / false, . and ? never split out of a longer operator, each literal form one token); error iff the reference errors.",
+         "All strings of <= 4 (thorough 5) atoms over a 35-atom mixed alphabet (keywords, ASCII / non-ASCII letters, digits and radix prefixes, exponent letters, dot, operator characters, quotes, backslash, white space incl. newline) under eleven operator sets (built-in, with the non-ASCII operator character ˆ, prefix-overlapping symbolic, containing . and ?, identifier-like with common prefixes, non-ASCII identifier-like, empty, and two pairs of sets whose symbols concatenate to the same text): tokens must be in source order, non-overlapping, separated only by white space, with runes[Idx:IdxEnd] == Lexeme and Line / Col recomputed from the text, and the token sequence must equal the reference scanner's (longest registered symbolic operator, whole-word identifier-like operators and true / false, . and ? never split out of a longer operator, each literal form one token); error iff the reference errors.",
          "Trusted: mc/ref/lex.go (no regexp). The literal grammars of lexer/factory.go are taken as the documented lexical grammar.",
          "DESIGN.md §4 C09"),
 
  "C18": ("enum", "model_checking",
          "bounded-exhaustive enumeration of all value pairs per type × all 8 map-iteration seeds, executed on the real equality / rendering / key / set functions",
-         "For 23 types (numbers across the 2^53 and int64 boundaries, strings needing escapes, booleans, instants incl. another zone and sub-second parts, lists, maps built in every insertion order, 3-field objects in all 6 field orders, nested objects, lists of objects, optionals) every ordered pair of values is probed, as raw values and as converted host data, under each of the 8 map-iteration start offsets the runtime can choose: the language's == (on singleton lists), equal String(), equal Key() / isset / get on a map keyed by one of them, and |union| / |intersect| / |diff| of singleton lists must all coincide with structural equality (numbers in the sets are identical or further apart than the tolerance); equality is reflexive on independently built copies and symmetric; the rendering is the same for every seed.",
+         "For 23 types (numbers across the 2^53 and int64 boundaries, strings needing escapes, booleans, instants incl. another zone and sub-second parts, lists, maps built in every insertion order, 3-field objects in all 6 field orders, nested objects, lists of objects, optionals) every ordered pair of values is probed, as raw values, as converted host data and (where the language has a literal form) as literals of one program on two back ends, under each of the 8 map-iteration start offsets the runtime can choose: the language's == (on singleton lists), equal String(), equal Key() / isset / get on a map keyed by one of them, and |union| / |intersect| / |diff| of singleton lists must all coincide with structural equality (numbers in the sets are identical or further apart than the tolerance); equality is reflexive on independently built copies and symmetric; the rendering is the same for every seed.",
          "Trusted: mc/ref LangEqual (structural equality by field name). The runtime overlay makes the iteration start offset an input (seeds 1..8 = every order for maps of <= 8 entries).",
          "DESIGN.md §4 C18"),
  "C20": ("enum", "model_checking",
@@ -93,8 +93,8 @@ CHECKS = {
          "No state merging (a state is its history), so no canonicalisation argument is needed. The runtime overlay owns map-iteration order; stdout is captured through a pipe.",
          "DESIGN.md §4 C13"),
  "C14": ("sched", "model_checking",
-         "stateless model checking: a hand-written cooperative scheduler runs the real goroutines and a DFS enumerates all interleavings of the synchronisation points (hand-placed hooks plus EVERY sync / sync/atomic operation of the repository, routed through scheduling-point shims by a build overlay regenerated from the current sources) with iterative preemption bounding; lock ownership and deadlock are modelled; vector-clock race detection over hooked accesses; separate free-running go test -race pass of the same thread bodies",
-         "15 scenarios of 2–3 threads (independent engines compiling polymorphic calls; one initialised engine compiling 2–3 expressions; one Callable invoked by three threads on each of the four back ends and with a shared *val.Env; compile while invoking; strtotime on an uncached zone; programs that together call every built-in; inputs no earlier execution has seen; Debug and Eval). Every interleaving of the synchronisation operations (every atomic operation and every lock / unlock the code performs: today the type-variable counter and the zone-cache mutex) is executed for preemption bounds 0,1,2,… until a larger bound adds no schedule or the per-scenario schedule cap is hit (reported per scenario); on each execution a vector-clock detector checks every hooked read / write (happens-before from spawn, release→acquire and atomics only) and each thread's outcome must equal its outcome when run alone; a schedule is replayed twice to prove determinism. Then the same bodies run free on plain goroutines under the Go race detector, which sees every memory access, hooked or not.",
+         "stateless model checking: a hand-written cooperative scheduler runs the real goroutines and a DFS enumerates all interleavings of the synchronisation points (hand-placed hooks plus EVERY sync / sync/atomic operation of the repository, routed through scheduling-point shims by a build overlay regenerated from the current sources) with iterative preemption bounding; sync.Pool is shimmed as a deterministic free list whose Get / Put are scheduling points and the harness's host functions yield to the scheduler, so threads are also interleaved inside an evaluation at host-call boundaries; lock ownership and deadlock are modelled; vector-clock race detection over hooked accesses; separate free-running go test -race pass of the same thread bodies",
+         "17 scenarios of 2–3 threads (one parsed tree compiled by three engines against differently typed environments; an invocation failing inside a lazily evaluated argument followed by overlapping invocations; independent engines compiling polymorphic calls; one initialised engine compiling 2–3 expressions; one Callable invoked by three threads on each of the four back ends and with a shared *val.Env; compile while invoking; strtotime on an uncached zone; programs that together call every built-in; inputs no earlier execution has seen; Debug and Eval). Every interleaving of the synchronisation operations (every atomic operation and every lock / unlock the code performs: today the type-variable counter and the zone-cache mutex) is executed for preemption bounds 0,1,2,… until a larger bound adds no schedule or the per-scenario schedule cap is hit (reported per scenario); on each execution a vector-clock detector checks every hooked read / write (happens-before from spawn, release→acquire and atomics only) and each thread's outcome must equal its outcome when run alone; a schedule is replayed twice to prove determinism. Then the same bodies run free on plain goroutines under the Go race detector, which sees every memory access, hooked or not.",
          "CHESS reduction (scheduling at synchronisation operations only is complete when the program is data-race free, which both detectors check). Sequential consistency assumed; the C library behind strtotime is opaque. Bounds completed are in the evidence file.",
          "DESIGN.md §4 C14"),
  "C15": ("enum", "model_checking",
@@ -114,7 +114,7 @@ CHECKS = {
          "DESIGN.md §4 C19"),
  "C17": ("enum", "model_checking",
          "bounded-exhaustive enumeration of type pairs executed on the real Unify/Equals, judged against an independent matcher and algebraic laws",
-         "Every ordered pair of types up to depth 1 (width 2) over the full constructor alphabet, every same-constructor pair of a reduced depth-2 set, and every pair of argument 2-tuples (tree-shaped and pointer-shared) is run through the real types.Equals / types.Unify in both orders; Equals must coincide with structural identity by field name and give the same answer when repeated on the same two objects, and a successful Unify must yield an acyclic substitution that makes both sides equal (relaxed only at the documented ⊥/⊤ positions) and must succeed exactly when the reference one-way matcher finds an instantiation for pattern-vs-ground pairs. Exhaustive within that bound; nothing is sampled.",
+         "Every ordered pair of types up to depth 1 (width 2) over the full constructor alphabet, every same-constructor pair of a reduced depth-2 set, every pair of 39 object types whose field names run into one another ({ab,c} / {a,bc} / {abc} / {a,b,c} …, bare, in lists and as map values), and every pair of argument 2-tuples (tree-shaped and pointer-shared) is run through the real types.Equals / types.Unify in both orders; Equals must coincide with structural identity by field name and give the same answer when repeated on the same two objects, and a successful Unify must yield an acyclic substitution that makes both sides equal (relaxed only at the documented ⊥/⊤ positions) and must succeed exactly when the reference one-way matcher finds an instantiation for pattern-vs-ground pairs. Exhaustive within that bound; nothing is sampled.",
          "Trusted: the harness's own structural equality / matcher (70 lines, mc/props/c17.go), the reading of real types through exported fields. Outside the bound: depth>=3, width>=3, more than two variables.",
          "DESIGN.md §4 C17"),
 }
